@@ -42,6 +42,17 @@ inline Bytes unhex(const std::string &s) {
   for (size_t i = 0; i + 1 < s.size(); i += 2) b.push_back((unsigned char)strtol(s.substr(i, 2).c_str(), 0, 16));
   return b;
 }
+// JSON records go to `jout`: by default stdout; init_json_channel() moves them to a private dup of
+// stdout and points fd 1 at /dev/null, because the code under test prints progress to stdout.
+static FILE *jout = stdout;
+inline void init_json_channel() {
+  fflush(stdout);
+  int d = dup(1);
+  jout = fdopen(d, "w");
+  int n = open("/dev/null", O_WRONLY);
+  dup2(n, 1);
+  close(n);
+}
 // JSON object builder: J().s("k","v").n("k",1).raw("k","[1,2]").emit()
 struct J {
   std::string b = "{";
@@ -53,7 +64,7 @@ struct J {
   J &bo(const char *k, bool v) { key(k); b += v ? "true" : "false"; return *this; }
   J &raw(const char *k, const std::string &v) { key(k); b += v; return *this; }
   std::string str() const { return b + "}"; }
-  void emit(FILE *f = stdout) const { std::string s = str(); s += "\n"; fwrite(s.data(), 1, s.size(), f); fflush(f); }
+  void emit(FILE *f = nullptr) const { if (!f) f = jout; std::string s = str(); s += "\n"; fwrite(s.data(), 1, s.size(), f); fflush(f); }
 };
 inline std::string jarr(const std::vector<int> &v) { std::string s = "["; for (size_t i = 0; i < v.size(); i++) { if (i) s += ","; s += std::to_string(v[i]); } return s + "]"; }
 inline std::string jarrs(const std::vector<std::string> &v) { std::string s = "["; for (size_t i = 0; i < v.size(); i++) { if (i) s += ","; s += "\"" + jesc(v[i]) + "\""; } return s + "]"; }
